@@ -197,8 +197,8 @@ class CHECK(vlib.Check):
                 "are scriptable oracles that may operate on any node from inside the callback. "
                 "Not modelled: cycle-start time / time-slice suggestions, ReflectServer's own event loop (it only calls the two manager entry points per root).")
     premises = ["memory safety and object lifetime of the C++ (observed by ASan/UBSan in the harness only)",
-                "theorems reach_inv / recalc_min / recalc_asks / step_total: the GetPulseTime() oracle is an arbitrary function of (node, call index, now, previous time) that performs NO operations (F16: with operations the statement is refuted, C20_reentrant_recalc_refuted); the Pulse() oracle is arbitrary and may perform any list of invalidate/attach/detach/clear/destroy operations on any nodes (reach_inv, cop_preserves, pulse_never_early_once) except in pulse_exact and step_total where it performs none",
-                "times are uint64: the model clamps an oracle's answer to MUSCLE_TIME_NEVER (= 2^64-1, proved from the translated constant); pulse instants are below MUSCLE_TIME_NEVER in pulse_exact",
+                "theorems reach_inv / recalc_min / recalc_asks / cycle_exact / step_total*: the GetPulseTime() oracle is an arbitrary function of (node, call index, now, previous time) that performs NO operations; reach_inv_safe / recalc_min_safe: it may perform any operations that do not invalidate/detach/re-attach/destroy a node whose own GetPulseTimeAux is running (checked dynamically by the instrumented run_s, which erases to the model); what remains excluded is exactly F16 (C20_reentrant_recalc_refuted, C20_f16_history_refused); no termination claim for GetPulseTime() callbacks that perform operations (two siblings invalidating each other from GetPulseTime() spin forever in the code as well); the Pulse() oracle is arbitrary and may perform any list of invalidate/attach/detach/clear/destroy operations on any nodes (reach_inv, cop_preserves, pulse_never_early_once) except in pulse_exact and step_total where it performs none",
+                "times are uint64: the model clamps an oracle's answer to MUSCLE_TIME_NEVER (= 2^64-1, proved from the translated constant); pulse_exact/cycle_exact take pulse instants below MUSCLE_TIME_NEVER, pulse_exact_gen covers every instant (at MUSCLE_TIME_NEVER never-requests on unscheduled lists do not fire; the harness only corresponds that instant)",
                 "callers do not build parent cycles, do not operate on destroyed nodes, and call the manager entry points on parentless nodes only (the model's operations are no-ops otherwise; the harness applies the same guards)",
                 "an object destroyed from inside a callback while one of its own sweeps may be running is freed after the sweep (its destructor's unlinking happens at once); other objects are freed at once"]
     rule = ("histories over up to 7 scripted PulseNodes: create/attach/detach/clear/destroy/invalidate and manager cycles "
@@ -219,6 +219,32 @@ class CHECK(vlib.Check):
             out.append(("ties", gen_ties(rng)))
         out += [("directed", c) for c in directed()]
         return out
+
+    def extra_stage(self, ctx):
+        """Finding F16 may only excuse histories in which a GetPulseTime() callback really touches a node whose own
+        recalculation is running.  For every failure tagged `reentrant-recalc` ask the model (step_s, the instrumented
+        sweep of Pulse/PulseSafe.v) whether the history is SAFE; if it is, the theorems reach_inv_safe/recalc_min_safe
+        cover it and the failure is NOT the known finding: re-tag it so that it is reported as a violation."""
+        tagged = [f for f in ctx["failures"] if f["kind"] == "oracle" and "reentrant-recalc" in f.get("signature", "") and f.get("case")]
+        cases = sorted(set(f["case"] for f in tagged))
+        n_safe = n_unsafe = 0
+        if cases and ctx.get("model"):
+            rc, out, err = vlib.run_lines(ctx["model"], "".join(c + "\n" for c in cases), timeout=300, env={"PULSE_SAFE": "1"})
+            verdict = {}
+            for l in out:
+                sp = l.split(" ", 1)
+                if sp[0].isdigit() and len(sp) > 1:
+                    verdict[cases[int(sp[0])]] = sp[1].strip()
+            for f in tagged:
+                v = verdict.get(f["case"])
+                if v == "SAFE":
+                    n_safe += 1
+                    f["signature"] = f["signature"].replace("reentrant-recalc", "recalc failure in a history whose GetPulseTime() callbacks stay off the recalculation stack (not F16)")
+                elif v == "UNSAFE":
+                    n_unsafe += 1
+                else:
+                    f["signature"] = f["signature"].replace("reentrant-recalc", "recalc failure (model gave no safety verdict)")
+        ctx["extra_coverage"] = {"f16_tagged_failures": len(tagged), "f16_tagged_unsafe_per_model": n_unsafe, "f16_tagged_but_safe": n_safe}
 
     def nontrivial(self, case):
         body = case.split("|", 1)[1]
